@@ -548,6 +548,7 @@ pub fn run(case: &Val) -> Val {
     let mut old: Option<RollingFileAppender> = None;
     if c[2].l()[0].n() == 1 {
         std::fs::write(ctx.active(), c[2].l()[1].s()).unwrap();
+        vh::util::vary_mtime(&ctx.active());
     }
     if c[2].l()[0].n() == 2 {
         // the configured log path is a SYMBOLIC LINK to the file that holds the pre-existing content
@@ -555,6 +556,7 @@ pub fn run(case: &Val) -> Val {
         std::fs::create_dir(ctx.dir.join("real")).unwrap();
         std::fs::write(ctx.dir.join("real").join("cur.data"), c[2].l()[1].s()).unwrap();
         std::os::unix::fs::symlink(ctx.dir.join("real").join("cur.data"), ctx.active()).unwrap();
+        vh::util::vary_mtime(&ctx.dir.join("real").join("cur.data"));
     }
     let mut out: Vec<Val> = Vec::new();
     let mut app = match ctx.build(c[3].b()) {
